@@ -61,7 +61,8 @@ def split_rows(sysd, gro):
     return groups
 
 
-def make_options(rng, sysd, workdir, res, allow=("plain", "c_full", "c_prefix", "c_res", "mc", "mc_res", "dens", "grid", "start", "bvol")):
+def make_options(rng, sysd, workdir, res, allow=("plain", "c_full", "c_prefix", "c_res", "mc", "mc_res", "dens", "grid", "start", "bvol"),
+                 prefix_groups=None):
     """returns (kwargs for gen_coords, info dict) ; info: expected box source and supplied groups"""
     info = {"mode": None, "supplied": [], "centres": [], "box_src": None, "box": None}
     mode = rng.choice(allow)
@@ -92,7 +93,7 @@ def make_options(rng, sysd, workdir, res, allow=("plain", "c_full", "c_prefix", 
         if mode == "c_full":
             sup = groups
         elif mode == "c_prefix":
-            k = rng.randint(1, max(1, len(groups) - 1))
+            k = prefix_groups or rng.randint(1, max(1, len(groups) - 1))
             sup = groups[:k]
         elif mode in ("c_res", "mc_res"):
             names = sorted({g["resname"] for g in groups})
@@ -108,7 +109,7 @@ def make_options(rng, sysd, workdir, res, allow=("plain", "c_full", "c_prefix", 
             sup = groups[:rng.randint(k1 + 1, len(groups))]
             info["c_part"] = groups[:k1]
         else:
-            k = rng.randint(max(1, len(groups) // 2), len(groups))
+            k = prefix_groups or rng.randint(max(1, len(groups) // 2), len(groups))
             sup = groups[:k]
         # supplied coordinates have to lie inside [0, L): a point exactly on the upper face is outside the
         # half-open box (the program rejects it, with an error from the KD-tree)
